@@ -753,6 +753,8 @@ type ThreadInfo struct {
 	Info  string
 	Stack string
 	Panic string
+	// WaitFor: the thread holding the mutex this thread is blocked on (-1: not blocked on an owned object)
+	WaitFor int
 }
 
 // Join (main only) waits until every non-daemon thread has finished or is idle.
@@ -794,7 +796,11 @@ func Join() JoinResult {
 		for i := 1; i < s.nthreads; i++ {
 			o := s.threads[i]
 			if o.state == tsPending && !idle(o) {
-				res.Blocked = append(res.Blocked, ThreadInfo{ID: o.id, Name: o.name, Op: o.op.String(), Info: o.info})
+				wf := -1
+				if ow, ok := o.obj.(interface{ VOwner() int }); ok {
+					wf = ow.VOwner()
+				}
+				res.Blocked = append(res.Blocked, ThreadInfo{ID: o.id, Name: o.name, Op: o.op.String(), Info: o.info, WaitFor: wf})
 			}
 		}
 	}
